@@ -140,8 +140,13 @@ def _dql_update(
     terminated,
 ):
     next_action = greedy_policy(q_table1, next_observation)
-    val = q_table1[observation, action]
-    next_val = (1 - terminated) * q_table2[next_observation, next_action]
+    # index the observation's action row first: observations of Tuple spaces
+    # are tuples, which `q_table[observation, action]` would treat as an
+    # index array on the first axis
+    val = q_table1[observation][action]
+    next_val = (1 - terminated) * q_table2[next_observation][next_action]
     error = td_error(reward, gamma, val, next_val)
-    q_table1 = q_table1.at[observation, action].add(learning_rate * error)
+    q_table1 = q_table1.at[observation].set(
+        q_table1[observation].at[action].add(learning_rate * error)
+    )
     return q_table1
